@@ -66,7 +66,9 @@ def run_tlc(module, cfg, workdir, workers=8, timeout=900, env_extra=None, extra_
     """Run TLC; returns dict(rc, out, generated, distinct, wall)."""
     os.makedirs(workdir, exist_ok=True)
     md = os.path.join(workdir, "md-" + os.path.basename(module) + "-" + str(os.getpid()) + "-" + str(time.time_ns() % 10**9))
-    cmd = java_cmd(xmx=xmx, xss=xss) + ["-workers", str(workers), "-metadir", md, "-cleanup",
+    cmd = java_cmd(xmx=xmx, xss=xss)
+    cmd.insert(1, "-Djava.io.tmpdir=" + workdir)      # TLC unpacks modules into a temp dir per run
+    cmd += ["-workers", str(workers), "-metadir", md, "-cleanup",
                                         "-noGenerateSpecTE", "-config", cfg]
     if cont:
         cmd.append("-continue")
